@@ -70,6 +70,9 @@ pub const KEEP_ALIVE_INTERVAL: u64 = 16;
 pub struct Connection<S, Stat, Disc, Filt, Stra, Auth, Loca> {
     stream: CipherStream<S, Aes128Cfb8Enc, Aes128Cfb8Dec>,
     buffer: Vec<u8>,
+    /// Framed bytes that were not yet accepted by the stream. A frame stays queued here until it
+    /// was written completely, such that dropping a pending write (select!) never tears a frame.
+    unsent: Vec<u8>,
 
     // adapters
     status_adapter: Arc<Stat>,
@@ -119,6 +122,7 @@ where
         Self {
             stream: CipherStream::from_stream(stream),
             buffer: Vec::with_capacity(INITIAL_BUFFER_SIZE),
+            unsent: Vec::new(),
             // adapters
             status_adapter,
             discovery_adapter,
@@ -249,11 +253,21 @@ where
         final_buffer.write_varint(packet_len as VarInt).await?;
         final_buffer.extend_from_slice(&self.buffer);
 
-        // send the final buffer into the stream
-        self.stream
-            .write_all(&final_buffer)
-            .instrument(tracing::info_span!("write_packet", otel.kind = "server"))
-            .await?;
+        // queue the frame and send everything queued into the stream. Each write is cancel safe and
+        // only removes what the stream accepted, so if this future is dropped half way (the keep-alive
+        // handling is raced against the adapters) the rest of the frame is sent before the next one.
+        self.unsent.extend_from_slice(&final_buffer);
+        while !self.unsent.is_empty() {
+            let written = self
+                .stream
+                .write(&self.unsent)
+                .instrument(tracing::info_span!("write_packet", otel.kind = "server"))
+                .await?;
+            if written == 0 {
+                return Err(std::io::Error::from(std::io::ErrorKind::WriteZero).into());
+            }
+            self.unsent.drain(..written);
+        }
 
         // track metrics
         let packet_size = u64::try_from(final_buffer.len()).expect("usize always fits into u64");
